@@ -15,7 +15,7 @@ RULE = ("every element length 0..521 (exhaustive) x 3 byte patterns; every non-p
         "random multi-element scripts; EVERY prefix of every generated serialisation, single-byte corruptions and random byte "
         "strings as a differential against a strict parser; varints at and around 0xfc/0xfd/0xffff/0x10000/0xffffffff/2^32/"
         "2^64 plus random and every truncation of their encodings; distinct = distinct (monitor, case) digests"
-        " EXTENSIONS: + scripts whose total size sits on the varint thresholds of the length prefix (252/253, 65535/65536/65537, 128 KiB; thorough 16 MiB), elements around 65536 and 2^20 bytes, script histories across refused serialisations, standard templates and their neighbours (extra commands, every prefix, declared length off by -2..+3, two records), one-byte number pushes next to every opcode and m-of-n shapes with data-element counts, request histories")
+        " EXTENSIONS: + scripts whose total size sits on the varint thresholds of the length prefix (252/253, 65535/65536/65537, 128 KiB; thorough 16 MiB), elements around 65536 and 2^20 bytes, script histories across refused serialisations, standard templates and their neighbours (extra commands, every prefix, declared length off by -2..+3, two records), one-byte number pushes next to every opcode and m-of-n shapes with data-element counts, request histories, scripts just beyond every harvested byte threshold up to 64 MiB cut inside their last element")
 LEVEL_TEXT = ("Each raw_serialize / serialize / parse / encode_varint / read_varint execution is compared with an own strict "
               "codec: push opcodes by length class, refusal above 520 bytes, exact round trip; the parser is run as a "
               "differential over all prefixes and corruptions: it must fail whenever the strict parser fails (input that ends "
@@ -444,10 +444,42 @@ def run(ctx):
         judge_varint(ctx, {"v": rnd.getrandbits(bits)})
     for _ in range(ctx.scale(40, 4000)):
         judge_varint(ctx, {"v": rnd.choice([1, -1]) * rnd.randrange(1 << 64, 1 << 80) if rnd.random() < 0.7 else -rnd.randrange(1, 1 << 64)})
+    # byte-count thresholds written down in the code under test, up to 64 MiB (vpkg.harvest): a script just beyond each
+    from .. import harvest
+    from ..core import REPO
+    bigs = [k for k in harvest.sizes(REPO, lo=65537, hi=1 << 26) if ctx.thorough or k not in harvest.baseline() or k <= (1 << 21)]
+    ctx.extra["harvested_byte_thresholds"] = bigs
+    for bi, K in enumerate(bigs):
+        if ctx.mine_once(bi + 4):
+            for cut in (0, 1, 2, 7, 100, 519, 523, -1):
+                judge_big_script(ctx, {"k": K, "cut": cut})
     # K+3 distinct requests per harvested threshold K, then a second look at the earliest answers (vpkg.longrun.ask_again)
     from .. import longrun
     longrun.histories(ctx, "history", "C19", history_specs(), first_job=2)
     ctx.extra["harvested_thresholds"] = longrun.thresholds()
+
+
+def judge_big_script(ctx, case):
+    """A script whose body is a little longer than a byte-count threshold K written down in the code under test (a block size, a
+    read limit): the canonical serialisation parses back, and the same bytes cut short inside the last element - by 1, 2, 7, 100,
+    519 bytes, by the whole element, in the middle - are refused.  The buffer is rebuilt from (K, cut): witnesses stay small."""
+    K, cut = case["k"], case["cut"]
+    count = (K + 3000) // 523 + 1
+    cmds = [bytes([j & 0xFF]) * 520 for j in range(count)]
+    ser = rscr.serialize(cmds)
+    buf = ser if cut == 0 else (ser[:len(ser) // 2] if cut < 0 else ser[:-cut])
+    try:
+        got = mk([]).parse(BytesIO(buf)).cmds
+        err = None
+    except Exception as e:  # noqa
+        got, err = None, e
+    if cut == 0:
+        ok, obs = err is None and got == cmds, err if err is not None else "%d commands, last %d bytes" % (len(got), len(got[-1]) if got else -1)
+        return ctx.judge("parse_diff", ok, case, "%d elements of 520 bytes" % count, obs, cls="big|K%d|canonical" % K, mech="C19.parse.rejects_canonical" if err else "C19.parse.wrong_commands")
+    ok = err is not None
+    obs = err if err is not None else "%d commands, last %d bytes" % (len(got), len(got[-1]) if got and isinstance(got[-1], bytes) else -1)
+    return ctx.judge("parse_diff", ok, case, "fail (input ends early)", obs, cls="big|K%d|cut" % K, outcome="both-fail" if ok else "lib-accepts",
+                     mech="C19.parse.truncated_accepted")
 
 
 def history_specs():
@@ -471,6 +503,8 @@ def replay(ctx, monitor, case):
             if name == case["function"]:
                 longrun.ask_again(ctx, "history", "C19", name, fn, make, case["n"], case["k"])
         return
+    if monitor == "parse_diff" and "cut" in case:
+        return judge_big_script(ctx, case)
     if monitor == "script_history":
         case["ops"] = [tuple(o) for o in case["ops"]]
         return judge_script_history(ctx, case)
